@@ -156,6 +156,193 @@ theorem identical_stack_fixed_point_delta (up n : ℕ) :
   rw [cc_eq]
   simp [Finset.sum_range_succ, QuantemModel.Props.C13.deltaImg, wrap]
 
+/-! ### interpolation through the knots (`interp1d` linear / quadratic / cubic) -/
+
+/-- **Polynomial reproduction.**  `transform_rows` with `nk = 2, 3, 4` knots (`interp1d` "linear",
+"quadratic", "cubic" through exactly `nk` points = the Lagrange interpolating polynomial on the
+nodes `np.linspace(0, 1, nk)`) reproduces *every* polynomial of degree `≤ nk - 1` exactly, at
+every abscissa `u` (inside or outside `[0, 1]`: `fill_value="extrapolate"`). -/
+theorem transform_rows_reproduces_polynomials (nk W : ℕ) (hnk : 2 ≤ nk ∧ nk ≤ 4) (a0 a1 a2 a3 f u : ℝ)
+    (h2 : nk = 2 → a2 = 0 ∧ a3 = 0) (h3 : nk = 3 → a3 = 0) :
+    transformRow nk W (fun k => a0 + a1 * linspace (0 : ℝ) 1 nk k + a2 * linspace (0 : ℝ) 1 nk k ^ 2
+        + a3 * linspace (0 : ℝ) 1 nk k ^ 3) f u
+      = a0 + a1 * u + a2 * u ^ 2 + a3 * u ^ 3 := by
+  obtain ⟨hl, hu⟩ := hnk
+  interval_cases nk
+  · obtain ⟨ha2, ha3⟩ := h2 rfl
+    obtain ⟨t0, t1⟩ := basis2
+    simp only [transformRow, show (2 : ℕ) ≠ 1 by norm_num, if_false, if_true, NumReal.zero_eq, NumReal.one_eq,
+      NumReal.add_eq, NumReal.mul_eq, NumReal.sub_eq, NumReal.div_eq, t0, t1, ha2, ha3]
+    ring
+  · have ha3 := h3 rfl
+    obtain ⟨t0, t1, t2⟩ := basis3
+    simp only [transformRow, show (3 : ℕ) ≠ 1 by norm_num, show (3 : ℕ) ≠ 2 by norm_num, if_false,
+      NumReal.zero_eq, NumReal.one_eq, ha3, zero_mul, add_zero]
+    exact lagrange3_reproduces _ (by rw [t0, t1]; norm_num) (by rw [t0, t2]; norm_num) (by rw [t1, t2]; norm_num) a0 a1 a2 u
+  · obtain ⟨t0, t1, t2, t3⟩ := basis4
+    simp only [transformRow, show (4 : ℕ) ≠ 1 by norm_num, show (4 : ℕ) ≠ 2 by norm_num, if_false,
+      NumReal.zero_eq, NumReal.one_eq]
+    exact lagrange4_reproduces _ (by rw [t0, t1]; norm_num) (by rw [t0, t2]; norm_num) (by rw [t0, t3]; norm_num)
+      (by rw [t1, t2]; norm_num) (by rw [t1, t3]; norm_num) (by rw [t2, t3]; norm_num) a0 a1 a2 a3 u
+
+/-- the Lagrange form itself, for *any* three / four distinct nodes (not only the uniform ones) -/
+theorem lagrange_reproduces_quadratics_and_cubics (t : ℕ → ℝ) (a0 a1 a2 a3 u : ℝ) :
+    (t 0 ≠ t 1 → t 0 ≠ t 2 → t 1 ≠ t 2 →
+      lagrange 3 t (fun i => a0 + a1 * t i + a2 * t i ^ 2) u = a0 + a1 * u + a2 * u ^ 2) ∧
+    (t 0 ≠ t 1 → t 0 ≠ t 2 → t 0 ≠ t 3 → t 1 ≠ t 2 → t 1 ≠ t 3 → t 2 ≠ t 3 →
+      lagrange 4 t (fun i => a0 + a1 * t i + a2 * t i ^ 2 + a3 * t i ^ 3) u
+        = a0 + a1 * u + a2 * u ^ 2 + a3 * u ^ 3) :=
+  ⟨fun h01 h02 h12 => lagrange3_reproduces t h01 h02 h12 a0 a1 a2 u,
+   fun h01 h02 h03 h12 h13 h23 => lagrange4_reproduces t h01 h02 h03 h12 h13 h23 a0 a1 a2 a3 u⟩
+
+/-- **Straight scan lines are sampled uniformly for every knot count** — derived from polynomial
+reproduction (degree 1), not from the placement formula: knots lying on the line
+`A + B·t` (`t ∈ linspace(0,1,nk)`) give the samples `A + B·u`, for 2, 3 and 4 knots; and the 1-knot
+extrapolation along `scan_fast` gives the same samples when the line runs along `scan_fast`
+(`B = fast·(W-1)`). -/
+theorem straight_line_sampled_uniformly (nk W : ℕ) (hnk : 1 ≤ nk ∧ nk ≤ 4) (A B f u : ℝ)
+    (h1 : nk = 1 → B = f * ((W : ℝ) - 1)) :
+    transformRow nk W (fun k => A + B * linspace (0 : ℝ) 1 nk k) f u = A + B * u := by
+  by_cases h : nk = 1
+  · subst h
+    simp only [transformRow, if_true, linspace_one, NumReal.ofInt_eq, NumReal.add_eq, NumReal.mul_eq]
+    rw [h1 rfl]; push_cast; ring
+  · have := transform_rows_reproduces_polynomials nk W ⟨by omega, hnk.2⟩ A B 0 0 f u (fun _ => ⟨rfl, rfl⟩) (fun _ => rfl)
+    simpa using this
+
+/-- **Knot-count independence, on top of polynomial reproduction**: the coordinates computed from
+`preprocess`-made knots do not depend on the knot count, for every pair of counts in `1..4`. The
+initial knots lie on a straight line in `t` (`linspace_affine`), so this is the degree-1 case above. -/
+theorem knot_count_independent_via_interpolation (Hc Wc H W nk nk' : ℕ) (h : 1 ≤ nk ∧ nk ≤ 4) (h' : 1 ≤ nk' ∧ nk' ≤ 4)
+    (sc : Scan ℝ) (r c : ℕ) :
+    coords Hc Wc H W nk sc r c = coords Hc Wc H W nk' sc r c := by
+  have key : ∀ n, 1 ≤ n ∧ n ≤ 4 → coords Hc Wc H W n sc r c
+      = ( ((halfSpan Hc : ℝ) + linspace (-(halfSpan H : ℝ)) (halfSpan H) H r * sc.s0 - (halfSpan W : ℝ) * sc.f0)
+            + (sc.f0 * ((W : ℝ) - 1)) * linspace (0 : ℝ) 1 W c,
+          ((halfSpan Wc : ℝ) + linspace (-(halfSpan H : ℝ)) (halfSpan H) H r * sc.s1 - (halfSpan W : ℝ) * sc.f1)
+            + (sc.f1 * ((W : ℝ) - 1)) * linspace (0 : ℝ) 1 W c ) := by
+    intro n hn
+    have hs : (halfSpan W : ℝ) - -(halfSpan W : ℝ) = (W : ℝ) - 1 := by rw [halfSpan_eq]; ring
+    by_cases h1 : n = 1
+    · subst h1
+      unfold coords
+      simp only [transformRow, if_true, initialKnot, linspace_one, NumReal.ofInt_eq, NumReal.add_eq, NumReal.mul_eq,
+        NumReal.zero_eq, NumReal.one_eq, NumReal.neg_eq]
+      ext <;> simp <;> ring
+    · have hn2 : 2 ≤ n := by omega
+      have e1 : (fun k => (initialKnot Hc Wc H W n sc r k).1)
+          = fun k => ((halfSpan Hc : ℝ) + linspace (-(halfSpan H : ℝ)) (halfSpan H) H r * sc.s0 - (halfSpan W : ℝ) * sc.f0)
+              + (sc.f0 * ((W : ℝ) - 1)) * linspace (0 : ℝ) 1 n k := by
+        funext k
+        simp only [initialKnot, NumReal.add_eq, NumReal.mul_eq, NumReal.neg_eq]
+        rw [linspace_affine hn2 (-(halfSpan W : ℝ)) (halfSpan W) k, hs]; ring
+      have e2 : (fun k => (initialKnot Hc Wc H W n sc r k).2)
+          = fun k => ((halfSpan Wc : ℝ) + linspace (-(halfSpan H : ℝ)) (halfSpan H) H r * sc.s1 - (halfSpan W : ℝ) * sc.f1)
+              + (sc.f1 * ((W : ℝ) - 1)) * linspace (0 : ℝ) 1 n k := by
+        funext k
+        simp only [initialKnot, NumReal.add_eq, NumReal.mul_eq, NumReal.neg_eq]
+        rw [linspace_affine hn2 (-(halfSpan W : ℝ)) (halfSpan W) k, hs]; ring
+      unfold coords
+      simp only [NumReal.zero_eq, NumReal.one_eq]
+      rw [e1, e2, straight_line_sampled_uniformly n W hn _ _ _ _ (fun h => absurd h h1),
+        straight_line_sampled_uniformly n W hn _ _ _ _ (fun h => absurd h h1)]
+  rw [key nk h, key nk' h']
+
+/-! ### the bilinear splat: sign, total and first moment of the four weights -/
+
+/-- **Weights are non-negative, sum to one and have their centroid exactly at the position**, for
+every (also negative / out-of-canvas) sub-pixel position: `Σ w = 1`, `Σ w·row = xa`, `Σ w·col = ya`
+over the four un-wrapped corners `(⌊xa⌋ + {0,1}, ⌊ya⌋ + {0,1})`. -/
+theorem splat_weights_nonneg_unit_centroid (xa ya : ℝ) :
+    (∀ q ∈ corners xa ya, 0 ≤ q.2.2) ∧
+    ((corners xa ya).map fun q => q.2.2).sum = 1 ∧
+    ((corners xa ya).map fun q => q.2.2 * (q.1 : ℝ)).sum = xa ∧
+    ((corners xa ya).map fun q => q.2.2 * (q.2.1 : ℝ)).sum = ya := by
+  have hx0 := Int.floor_le xa
+  have hx1 := Int.lt_floor_add_one xa
+  have hy0 := Int.floor_le ya
+  have hy1 := Int.lt_floor_add_one ya
+  have dx0 : 0 ≤ xa - ⌊xa⌋ := by linarith
+  have dx1 : 0 ≤ 1 - (xa - ⌊xa⌋) := by linarith
+  have dy0 : 0 ≤ ya - ⌊ya⌋ := by linarith
+  have dy1 : 0 ≤ 1 - (ya - ⌊ya⌋) := by linarith
+  refine ⟨?_, ?_, ?_, ?_⟩
+  · intro q hq
+    simp only [corners, floor_real, NumReal.ofInt_eq, NumReal.sub_eq, NumReal.mul_eq, NumReal.one_eq, List.mem_cons,
+      List.not_mem_nil, or_false] at hq
+    rcases hq with rfl | rfl | rfl | rfl <;> simp only <;> positivity
+  · simp [corners]; ring
+  · simp [corners]; ring_nf; exact Int.fract_add_floor xa
+  · simp [corners]; ring_nf; exact Int.fract_add_floor ya
+
+/-- **On the canvas the first moment is conserved cell by cell**: for a position whose four corners
+lie inside the `rows × cols` canvas (no wrap), `Σ_{i,j} i·splat[i,j] = xa` and `Σ_{i,j} j·splat[i,j] = ya`. -/
+theorem splat_centroid_on_canvas {rows cols : ℕ} (xa ya : ℝ) (hx0 : 0 ≤ ⌊xa⌋) (hx1 : ⌊xa⌋ + 1 < rows)
+    (hy0 : 0 ≤ ⌊ya⌋) (hy1 : ⌊ya⌋ + 1 < cols) :
+    ∑ i ∈ range rows, ∑ j ∈ range cols, (i : ℝ) * splatAt rows cols xa ya i j = xa ∧
+    ∑ i ∈ range rows, ∑ j ∈ range cols, (j : ℝ) * splatAt rows cols xa ya i j = ya := by
+  have hr : 0 < rows := by omega
+  have hc : 0 < cols := by omega
+  have w1 : ((wrap rows ⌊xa⌋ : ℕ) : ℝ) = (⌊xa⌋ : ℝ) := wrap_cast_of_mem hx0 (by omega)
+  have w2 : ((wrap rows (⌊xa⌋ + 1) : ℕ) : ℝ) = ((⌊xa⌋ + 1 : ℤ) : ℝ) := wrap_cast_of_mem (by omega) (by omega)
+  have w3 : ((wrap cols ⌊ya⌋ : ℕ) : ℝ) = (⌊ya⌋ : ℝ) := wrap_cast_of_mem hy0 (by omega)
+  have w4 : ((wrap cols (⌊ya⌋ + 1) : ℕ) : ℝ) = ((⌊ya⌋ + 1 : ℤ) : ℝ) := wrap_cast_of_mem (by omega) (by omega)
+  constructor
+  · simp_rw [splatAt_eq, mul_add, Finset.sum_add_distrib]
+    rw [sum_hit_row hr hc, sum_hit_row hr hc, sum_hit_row hr hc, sum_hit_row hr hc]
+    simp only [w1, w2]
+    push_cast; ring
+  · simp_rw [splatAt_eq, mul_add, Finset.sum_add_distrib]
+    rw [sum_hit_col hr hc, sum_hit_col hr hc, sum_hit_col hr hc, sum_hit_col hr hc]
+    simp only [w3, w4]
+    push_cast; ring
+
+/-- **On the border the code wraps**: a position in the last row (`⌊xa⌋ = rows - 1`) sends the share `dx`
+of its weight to row 0 (`ravel_multi_index(mode="wrap")`), so the total stays 1 (`weights_unit`) while the
+row centroid is displaced by `-rows·dx`. -/
+theorem splat_border_wraps {rows cols : ℕ} (hr : 2 ≤ rows) (xa ya : ℝ) (hx : ⌊xa⌋ = (rows : ℤ) - 1)
+    (hy0 : 0 ≤ ⌊ya⌋) (hy1 : ⌊ya⌋ + 1 < cols) :
+    ∑ i ∈ range rows, ∑ j ∈ range cols, (i : ℝ) * splatAt rows cols xa ya i j
+      = xa - (rows : ℝ) * (xa - ⌊xa⌋) := by
+  have hr' : 0 < rows := by omega
+  have hc : 0 < cols := by omega
+  have w1 : ((wrap rows ⌊xa⌋ : ℕ) : ℝ) = (⌊xa⌋ : ℝ) := wrap_cast_of_mem (by omega) (by omega)
+  have w2 : ((wrap rows (⌊xa⌋ + 1) : ℕ) : ℝ) = 0 := by
+    have : wrap rows (⌊xa⌋ + 1) = 0 := by
+      rw [hx, show (rows : ℤ) - 1 + 1 = 0 + (rows : ℤ) * 1 by ring, wrap_add_mul, wrap_zero]
+    rw [this]; simp
+  simp_rw [splatAt_eq, mul_add, Finset.sum_add_distrib]
+  rw [sum_hit_row hr' hc, sum_hit_row hr' hc, sum_hit_row hr' hc, sum_hit_row hr' hc]
+  simp only [w1, w2]
+  have : (⌊xa⌋ : ℝ) = (rows : ℝ) - 1 := by rw [hx]; push_cast; ring
+  rw [this]; ring
+
+/-! ### Gaussian KDE: a normalised kernel conserves the total weight -/
+
+/-- **`mode="wrap"`: exact conservation** for any kernel (symmetric or not, any radius, also larger
+than the canvas): the filtered total is the kernel sum times the input total; `= ` input total for a
+normalised kernel.  (`gaussian_filter` is separable, so this is applied once per axis.) -/
+theorem gaussian_wrap_conserves_total {n : ℕ} (r : ℕ) (w x : ℕ → ℝ) (hw : ∑ d ∈ range (2 * r + 1), w d = 1) :
+    ∑ i ∈ range n, convWrap n r w x i = ∑ i ∈ range n, x i := by
+  rw [convWrap_total, hw, one_mul]
+
+/-- **`mode="reflect"` — the mode `gaussian_filter` uses by default and therefore the mode of the
+code: exact conservation for every *symmetric* kernel** (`w[2r-d] = w[d]`, as the sampled Gaussian is),
+any radius (also larger than the canvas: the extension is the even one of period `2n`).  Nothing is
+lost at the border: what leaves on one side is reflected back in. -/
+theorem gaussian_reflect_conserves_total {n : ℕ} (hn : 0 < n) (r : ℕ) (w x : ℕ → ℝ)
+    (hsym : ∀ d, d ≤ 2 * r → w (2 * r - d) = w d) (hw : ∑ d ∈ range (2 * r + 1), w d = 1) :
+    ∑ i ∈ range n, convReflect n r w x i = ∑ i ∈ range n, x i := by
+  rw [convReflect_total hn r w x hsym, hw, one_mul]
+
+/-- symmetry of the kernel is needed under `reflect`: the one-sided kernel `(1, 0, 0)` doubles the
+first sample of `x = (1, 0)` (total 2 instead of 1), whereas `wrap` conserves it for any kernel. -/
+theorem gaussian_reflect_asymmetric_counterexample :
+    ∑ i ∈ range 2, convReflect 2 1 (fun d => if d = 0 then (1 : ℝ) else 0) (fun i => if i = 0 then (1 : ℝ) else 0) i
+      ≠ ∑ i ∈ range 2, (fun i => if i = 0 then (1 : ℝ) else 0) i := by
+  simp only [Finset.sum_range_succ, Finset.sum_range_zero, convReflect, sumN]
+  norm_num [reflIdx, wrap]
+
 /-! ### non-vacuity -/
 
 /-- a concrete configuration (6 × 9 image, 8 × 12 canvas, 3 knots, oblique rational scan vectors):
@@ -168,6 +355,20 @@ example : coords 8 12 6 9 3 (⟨-3/5, 4/5, 4/5, 3/5⟩ : Scan ℝ) 5 8
 
 /-- the hypothesis of the fixed-point theorem is satisfiable: the trivial routine -/
 example : ∃ reg : Reg ℝ, ∀ F, reg F F = ((0, 0), F) := ⟨fun _ Fi => ((0, 0), Fi), fun _ => rfl⟩
+
+/-- the binomial kernel (1/4, 1/2, 1/4) is symmetric and normalised: the reflect-mode total is conserved -/
+example (x : ℕ → ℝ) : ∑ i ∈ range 5, convReflect 5 1 (fun d => if d = 1 then (1 / 2 : ℝ) else 1 / 4) x i = ∑ i ∈ range 5, x i := by
+  apply gaussian_reflect_conserves_total (by norm_num)
+  · intro d hd
+    have : d = 0 ∨ d = 1 ∨ d = 2 := by omega
+    rcases this with rfl | rfl | rfl <;> norm_num
+  · simp [Finset.sum_range_succ]; norm_num
+
+/-- a cubic through four uniform knots is reproduced (degree 3 with 4 knots) -/
+example (u : ℝ) : transformRow 4 7 (fun k => 1 + 2 * linspace (0 : ℝ) 1 4 k - linspace (0 : ℝ) 1 4 k ^ 2
+      + 5 * linspace (0 : ℝ) 1 4 k ^ 3) 0 u = 1 + 2 * u - u ^ 2 + 5 * u ^ 3 := by
+  have := transform_rows_reproduces_polynomials 4 7 (by norm_num) 1 2 (-1) 5 0 u (by norm_num) (by norm_num)
+  simpa [sub_eq_add_neg] using this
 
 /-- a point outside the canvas still carries unit weight (wrap indexing) -/
 example : ∑ i ∈ range 3, ∑ j ∈ range 4, splatAt 3 4 (-0.25 : ℝ) (7.5 : ℝ) i j = 1 :=
